@@ -87,8 +87,9 @@ ROUND4 = [
   S('functor_string_constants', 'A() = "a";\nLabel(x) = ToString(x) ++ ":" ++ ToString(A()) :- Item(x);\n'
     'F(x, a: A(), label: Label(x)) :- Item(x);\n' +
     ''.join('N%d := F(A: %s);\n' % (i, c) for i, (c, _) in enumerate(_CONSTS)), {'Item': 1},
-    dict([('F', lambda db: [(x, 'a', '%d:a' % x) for (x,) in db['Item']])] +
-         [('N%d' % i, (lambda v: lambda db: [(x, v, '%d:%s' % (x, v)) for (x,) in db['Item']])(v))
+    # Label(x) is itself defined over Item: a duplicated item joins with each of its copies
+    dict([('F', lambda db: [(x, 'a', '%d:a' % x) for (x,) in db['Item'] for (y,) in db['Item'] if y == x])] +
+         [('N%d' % i, (lambda v: lambda db: [(x, v, '%d:%s' % (x, v)) for (x,) in db['Item'] for (y,) in db['Item'] if y == x])(v))
           for i, (_, v) in enumerate(_CONSTS)]),
     tags=('C04', 'C10'), max_rows={'quick': 1, 'thorough': 2}, domain=[1, 2]),
   # a concrete predicate with a filter, called inside a negation and inside an aggregating expression
